@@ -117,6 +117,7 @@ func runC04(c *core.Ctx) {
 	checkIterates(c, pkgs, "C04")
 	checkWhileGuard(k)
 	nD, nI := 0, 0
+	ist := initStats{}
 	for _, pk := range pkgs {
 		src, err := os.ReadFile(pk.CPath)
 		if err != nil {
@@ -137,6 +138,7 @@ func runC04(c *core.Ctx) {
 			if checkDerived(c, &c08fn{pk, f, cname, cfn, stmts}) {
 				nD++
 			}
+			checkLocalInit(c, &c08fn{pk, f, cname, cfn, stmts}, &ist)
 		}
 		for _, s := range pk.Structs {
 			if !s.Classy() {
@@ -156,5 +158,6 @@ func runC04(c *core.Ctx) {
 		}
 	}
 	c.Floor("G5", "functions with derived I/O pointers", nD, 100)
+	c.Floor("Z1", "declarations of Wuffs locals in generated C", ist.decls, 1800)
 	c.Floor("G6", "initializers", nI, 28)
 }
